@@ -197,6 +197,9 @@ pub enum FaultKind {
     NoSpace,
     /// Stored bytes change right before this operation is served.
     Mutate(Vec<Patch>),
+    /// An error of another kind than `Other`, nothing moves: 0 = `TimedOut`, 1 = `WouldBlock`,
+    /// 2 = `UnexpectedEof`, 3 = `InvalidData`, 4 = `BrokenPipe`, else `NotFound`.
+    Transient { kind: u8 },
 }
 
 impl FaultKind {
@@ -208,6 +211,12 @@ impl FaultKind {
             FaultKind::WriteZero => "write_zero",
             FaultKind::NoSpace => "enospc",
             FaultKind::Mutate(_) => "mutate",
+            FaultKind::Transient { kind: 0 } => "timed_out",
+            FaultKind::Transient { kind: 1 } => "would_block",
+            FaultKind::Transient { kind: 2 } => "unexpected_eof",
+            FaultKind::Transient { kind: 3 } => "invalid_data",
+            FaultKind::Transient { kind: 4 } => "broken_pipe",
+            FaultKind::Transient { .. } => "not_found",
         }
     }
     pub fn applies_to(&self, op: OpKind) -> bool {
@@ -218,6 +227,7 @@ impl FaultKind {
             FaultKind::Interrupted => true,
             FaultKind::WriteZero | FaultKind::NoSpace => op == OpKind::Write,
             FaultKind::Mutate(_) => true,
+            FaultKind::Transient { .. } => true,
         }
     }
 }
@@ -350,6 +360,17 @@ impl SimCtx {
                         }
                     }
                     FaultKind::Mutate(p) => patches.extend(p),
+                    FaultKind::Transient { kind } => {
+                        let k = match kind {
+                            0 => ErrorKind::TimedOut,
+                            1 => ErrorKind::WouldBlock,
+                            2 => ErrorKind::UnexpectedEof,
+                            3 => ErrorKind::InvalidData,
+                            4 => ErrorKind::BrokenPipe,
+                            _ => ErrorKind::NotFound,
+                        };
+                        decision = Pre::Fail(injected(k, "error of a drawn kind"))
+                    }
                 }
             }
             i += 1;
